@@ -635,8 +635,8 @@ impl ExecutableContent for SendParameters {
         let type_val = match type_result {
             Ok(val) => val,
             Err(err) => {
+                // (execute() has placed error.execution)
                 error!("Failed to evaluate send type: {}", err);
-                datamodel.internal_error_execution_for_event(&send_id, &fsm.caller_invoke_id);
                 return false;
             }
         };
